@@ -23,12 +23,13 @@ const crcAxioms = `
   (! (=> (and (bvsle lo mid) (bvsle mid hi))
          (= (crcU (crcU c a lo mid) a mid hi) (crcU c a lo hi)))
      :pattern ((crcU (crcU c a lo mid) a mid hi)))))
-(declare-fun crcDiff ((Array (_ BitVec 64) (_ BitVec 8)) (Array (_ BitVec 64) (_ BitVec 8)) (_ BitVec 64) (_ BitVec 64)) (_ BitVec 64))
-(assert (forall ((c (_ BitVec 32)) (a (Array (_ BitVec 64) (_ BitVec 8))) (b (Array (_ BitVec 64) (_ BitVec 8))) (lo (_ BitVec 64)) (hi (_ BitVec 64)))
-  (! (=> (=> (and (bvsle lo (crcDiff a b lo hi)) (bvslt (crcDiff a b lo hi) hi))
-             (= (select a (crcDiff a b lo hi)) (select b (crcDiff a b lo hi))))
-         (= (crcU c a lo hi) (crcU c b lo hi)))
-     :pattern ((crcU c a lo hi) (crcU c b lo hi)))))
+(declare-fun crcWit ((Array (_ BitVec 64) (_ BitVec 8)) (_ BitVec 64) (Array (_ BitVec 64) (_ BitVec 8)) (_ BitVec 64) (_ BitVec 64)) (_ BitVec 64))
+(assert (forall ((c (_ BitVec 32)) (a (Array (_ BitVec 64) (_ BitVec 8))) (lo (_ BitVec 64)) (hi (_ BitVec 64)) (b (Array (_ BitVec 64) (_ BitVec 8))) (lo2 (_ BitVec 64)) (hi2 (_ BitVec 64)))
+  (! (=> (and (= (bvsub hi lo) (bvsub hi2 lo2))
+              (=> (and (bvsle #x0000000000000000 (crcWit a lo b lo2 (bvsub hi lo))) (bvslt (crcWit a lo b lo2 (bvsub hi lo)) (bvsub hi lo)))
+                  (= (select a (bvadd lo (crcWit a lo b lo2 (bvsub hi lo)))) (select b (bvadd lo2 (crcWit a lo b lo2 (bvsub hi lo)))))))
+         (= (crcU c a lo hi) (crcU c b lo2 hi2)))
+     :pattern ((crcU c a lo hi) (crcU c b lo2 hi2)))))
 `
 
 const unwrapDecl = "(declare-fun unwrap ((_ BitVec 32)) (_ BitVec 32))\n"
@@ -104,7 +105,7 @@ func (o *Obl) BuildQuery() string {
 	body.WriteString("; expect: " + o.Expect + " (unsat = obligation holds; sat = counterexample)\n")
 	body.WriteString("(set-option :produce-models true)\n(set-logic ALL)\n")
 	for _, k := range specPreludeOrder {
-		if used[k] || (k == "crcU" && used["crcDiff"]) {
+		if used[k] {
 			body.WriteString(specPreludes[k])
 		}
 	}
